@@ -1,5 +1,6 @@
 //! bvsim: the simulation driver. Links the bindgen library built from /repo's
 //! working tree with `--cfg bindgen_verif`.
+mod c15;
 mod job;
 mod util;
 
@@ -18,6 +19,9 @@ fn handle(req: &Value) -> Value {
             };
             job::run_job(&j, &opts)
         }
+        "c15" => c15::op_sim(req),
+        "c15-replay" => c15::op_replay(req),
+        "c15-real" => c15::op_real(req),
         "ping" => json!({"pong": true}),
         other => json!({"error": format!("unknown op {other}")}),
     }
@@ -47,6 +51,32 @@ fn main() {
     let args: Vec<String> = std::env::args().collect();
     match args.get(1).map(|s| s.as_str()) {
         Some("worker") => worker(),
+        Some("tokdiff") => {
+            let a = std::fs::read_to_string(&args[2]).unwrap();
+            let b = std::fs::read_to_string(&args[3]).unwrap();
+            fn flat(ts: proc_macro2::TokenStream, out: &mut Vec<String>) {
+                for t in ts {
+                    match t {
+                        proc_macro2::TokenTree::Group(g) => {
+                            out.push(format!("{:?}(", g.delimiter()));
+                            flat(g.stream(), out);
+                            out.push(")".into());
+                        }
+                        other => out.push(other.to_string()),
+                    }
+                }
+            }
+            let (mut x, mut y) = (vec![], vec![]);
+            flat(a.parse().unwrap(), &mut x);
+            flat(b.parse().unwrap(), &mut y);
+            println!("{} vs {} tokens", x.len(), y.len());
+            for i in 0..x.len().min(y.len()) {
+                if x[i] != y[i] {
+                    println!("first difference at {i}: {:?} vs {:?}", &x[i.saturating_sub(5)..(i + 5).min(x.len())], &y[i.saturating_sub(5)..(i + 5).min(y.len())]);
+                    break;
+                }
+            }
+        }
         _ => {
             eprintln!("usage: bvsim worker");
             std::process::exit(2);
